@@ -600,6 +600,85 @@ def _dense(X):
     return X.toarray() if hasattr(X, 'toarray') else np.asarray(X)
 
 
+def _ref_colloc(knots, p, x):
+    """dense B[i,j] = N_{j,p}(x_i) by the Cox-de Boor recursion (right end point included); own implementation"""
+    knots = np.asarray(knots, dtype=float)
+    x = np.asarray(x, dtype=float)
+    m = len(knots) - 1
+    B = np.zeros((len(x), m))
+    for j in range(m):
+        if knots[j] < knots[j + 1]:
+            B[:, j] = (knots[j] <= x) & (x < knots[j + 1])
+    last = max(j for j in range(m) if knots[j] < knots[j + 1])
+    B[x == knots[-1], last] = 1.0
+    for q in range(1, p + 1):
+        Bn = np.zeros((len(x), m - q))
+        for j in range(m - q):
+            d1 = knots[j + q] - knots[j]
+            d2 = knots[j + q + 1] - knots[j + 1]
+            if d1 > 0:
+                Bn[:, j] += (x - knots[j]) / d1 * B[:, j]
+            if d2 > 0:
+                Bn[:, j] += (knots[j + q + 1] - x) / d2 * B[:, j + 1]
+        B = Bn
+    return B
+
+
+_EVAL_ROT = [0]
+_COEFF_KINDS = ['int-ones', 'int-pattern', 'float32', 'float64', 'int32-pattern']
+
+
+def _test_coeffs(kind, n):
+    pat = (np.arange(n) * 3) % 7 - 2
+    if kind == 'int-ones':
+        return np.ones(n, dtype=int)
+    if kind == 'int-pattern':
+        return pat.astype(int)
+    if kind == 'int32-pattern':
+        return pat.astype(np.int32)
+    if kind == 'float32':
+        return (pat / 4.0).astype(np.float32)          # exactly representable
+    return pat / 4.0 + 0.125
+
+
+def _oracle_eval(hs, refA, refT):
+    """hierarchical spline functions evaluated by the library (grid_eval, HSplineFunc) for coefficient vectors of
+    integer / float32 / float64 dtype, HB and THB interpretation, against the stateless reference: fine-level
+    tensor-product coefficients `ref_represent_fine @ coeffs` evaluated with an own Cox-de Boor collocation"""
+    from pyiga import hierarchical
+    lv = hs.numlevels - 1
+    grid, C = [], np.ones((1, 1))
+    for kv in hs.mesh(lv).kvs:
+        mesh = np.asarray(kv.mesh, dtype=float)
+        pts = np.unique(np.concatenate(((mesh[:-1] + mesh[1:]) / 2, mesh[::max(1, len(mesh) // 4)], mesh[-1:])))
+        if len(pts) > 9:
+            pts = pts[np.linspace(0, len(pts) - 1, 9).astype(int)]
+        grid.append(pts)
+        C = np.kron(C, _ref_colloc(kv.kv, int(kv.p), pts))
+    n = hs.numdofs
+    shape = tuple(len(g) for g in grid)
+    for _ in range(2):
+        _EVAL_ROT[0] += 1
+        kind = _COEFF_KINDS[_EVAL_ROT[0] % len(_COEFF_KINDS)]
+        u = _test_coeffs(kind, n)
+        scale = max(1.0, float(np.abs(u).max()))
+        tol = (1e-5 if kind == 'float32' else 1e-9) * scale
+        for tr, ref in ((True, refT), (False, refA)):
+            want = (C @ (ref @ u.astype(float))).reshape(shape)
+            via = 'grid_eval' if (_EVAL_ROT[0] + int(tr)) % 2 else 'HSplineFunc.grid_eval'
+            if via == 'grid_eval':
+                got = np.asarray(hs.grid_eval(u, grid, truncate=tr), dtype=float)
+            else:
+                got = np.asarray(hierarchical.HSplineFunc(hs, u, truncate=tr).grid_eval(grid), dtype=float)
+            if got.shape != want.shape or not np.all(np.isfinite(got)) or np.abs(got - want).max() > tol:
+                dev = np.abs(got - want).max() if got.shape == want.shape else float('nan')
+                return 'eval: %s of a hierarchical spline with %s coefficients (dtype %s), truncate=%s, deviates from the reference values by %g' % (
+                    via, kind, u.dtype, tr, dev)
+            if kind == 'int-ones' and tr and np.abs(want - 1).max() < 1e-9 and np.abs(got - 1).max() > 1e-9:
+                return 'eval: the THB functions with integer coefficients 1 do not sum to one (max deviation %g)' % np.abs(got - 1).max()
+    return None
+
+
 def _oracle_numeric(hs, order=None):
     """numeric clauses on the object `hs` itself (it keeps whatever internal caches earlier queries left behind).
     The THB and HB queries are issued in alternating order (THB first / HB first) and every answer is compared
@@ -627,6 +706,9 @@ def _oracle_numeric(hs, order=None):
             order, np.abs(A - refA).max() if refA.shape == A.shape else float('nan'))
     if np.abs(Rt - refT).max() > 1e-9:
         return 'represent: represent_fine(truncate=True) (queries in order %s) is not the THB representation of the current space (max deviation %g)' % (order, np.abs(Rt - refT).max())
+    bad = _oracle_eval(hs, refA, refT)
+    if bad is not None:
+        return bad
     # the default `truncate=None` must follow the attribute of the space
     D = _dense(hs.represent_fine())
     if np.abs(D - (refT if hs.truncate else refA)).max() > 1e-9:
@@ -754,6 +836,18 @@ def gen_random_cfg(rng, tier):
             if rng.integers(0, 2):
                 brk = brk / brk[-1]
             kvs.append((p, mult, [float(b) for b in brk]))
+    if dim >= 2 and rng.integers(0, 3) == 0:
+        # nearly equal (same degree, same number of knots) but different axes on a tiny domain; the power of two
+        # keeps the arithmetic exact
+        p = int(rng.integers(1, pmax + 1))
+        n = int(rng.integers(2, 4))
+        sc = 2.0 ** -int(rng.integers(28, 34))
+        kvs = []
+        for _d in range(dim):
+            steps = rng.integers(1, 4, size=n)
+            brk = np.concatenate(([0], np.cumsum(steps))).astype(float)
+            brk = brk / brk[-1] * 4.0
+            kvs.append((p, [1] * (n - 1), [float(b * sc) for b in brk]))
     return {'kvs': kvs, 'disp': disp, 'truncate': bool(rng.integers(0, 2)), 'kind': 'r%dd' % dim,
             'ncalls': ncalls, 'kcells': kcells, 'dim': dim}
 
@@ -934,6 +1028,7 @@ def run(ctx):
                 'empty marks; containers set/frozenset/list/tuple with duplicates, shuffled, missing vs explicit-empty keys. '
                 'deep chains: disparity 2/3, 1-D p 1-2 (one with a double knot) and 2-D 2x2 p 1, 2d+1..2d+3 successive calls marking 1-2 cells of the deepest level (+ sometimes one of the level below); '
                 'long-lived: one HSpace object refined in place 2-3 times (1-D p 1-3, 2-D, disparity inf/1/2, truncate on/off) with represent_fine / thb_to_hb / hb_to_thb queried after every step in alternating THB-first / HB-first order and compared with a stateless dense reference; '
+                'evaluation: grid_eval / HSplineFunc.grid_eval with int / int32 / float32 / float64 coefficient vectors, HB and THB, against reference values (stateless representation x own Cox-de Boor); 2-D/3-D spaces whose axes are different knot vectors of equal degree and length on domains of size 2^-30 (long-lived and random streams); '
                 'One request per history (every prefix state is reported by the driver), plus a `vsup` request (the five cell_* properties of the final space) for every random and every 6th exhaustive history. non-trivial = final space has >=2 levels and a deactivated function; '
                 'distinct by request line')
     cache = {}
@@ -1070,6 +1165,14 @@ def run(ctx):
     ll_base = [([(p, 'uniform', n)], None) for p in (1, 2, 3) for n in (2, 3, 4)]
     ll_base += [([(2, [2], [0.0, 1.0, 2.0])], 2), ([(1, 'uniform', 2), (1, 'uniform', 2)], None),
                 ([(2, 'uniform', 2), (1, 'uniform', 2)], 1), ([(2, 'uniform', 4)], 1), ([(1, 'uniform', 3)], 2)]
+    # >= 2-D spaces whose axes carry different knot vectors of the same degree and length on a tiny parameter domain
+    # (power-of-two scalings keep every float operation exact): uniform x graded, graded x graded', also 3-D
+    tiny = 2.0 ** -30
+    ll_base += [([(1, [1, 1], [0.0, tiny, 2 * tiny, 3 * tiny]), (1, [1, 1], [0.0, tiny, 2.5 * tiny, 3 * tiny])], None),
+                ([(2, [1], [0.0, 1.5 * tiny, 2 * tiny]), (2, [1], [0.0, 0.5 * tiny, 2 * tiny])], None),
+                ([(2, [1], [0.0, tiny, 2 * tiny]), (2, [1], [0.0, 0.25 * tiny, 2 * tiny])], 1),
+                ([(1, [1], [0.0, tiny, 4 * tiny]), (1, [1], [0.0, 2 * tiny, 4 * tiny]), (1, [1], [0.0, 3 * tiny, 4 * tiny])], None),
+                ([(2, [2], [0.0, 1.0, 4.0]), (2, [2], [0.0, 3.0, 4.0])], None)]
     nrep = 2 if quick else 12
     for li, (kvs, disp) in enumerate(ll_base):
         for rep in range(nrep):
